@@ -76,7 +76,6 @@ try:
     meta["head_at_evaluation"] = subprocess.run(["git", "-C", "/repo", "rev-parse", "--short", "HEAD"], stdout=subprocess.PIPE, text=True).stdout.strip()
 finally:
     subprocess.run(["git", "-C", "/repo", "worktree", "remove", "--force", wt], stdout=subprocess.DEVNULL, stderr=subprocess.DEVNULL)
-    subprocess.run("find /verif/replays -type f -newer /verif/tools_eval_mutant.py -name '*.json' -delete", shell=True)
 m2 = re.search(r"(?i)needs?[^\n]*\n([^\n]+)", readme)
 meta["needs"] = " ".join(readme.split("\n")[0:6])[:600]
 out = os.path.join("/verif/seeded", name)
